@@ -31,9 +31,18 @@ WANT_ENV = {"PYTHONHASHSEED": "0", "OPENBLAS_NUM_THREADS": "1", "OMP_NUM_THREADS
 
 
 def reexec_if_needed():
-    if any(os.environ.get(k) != v for k, v in WANT_ENV.items()):
+    """fixed hash seed, single-threaded numeric libraries and - because z3 has
+    address-dependent containers - address-space randomisation switched off, so that one
+    seed is one execution across invocations too"""
+    if any(os.environ.get(k) != v for k, v in WANT_ENV.items()) or os.environ.get("VERIF_NOASLR") != "1":
         env = dict(os.environ)
         env.update(WANT_ENV)
+        env["VERIF_NOASLR"] = "1"
+        try:
+            import ctypes
+            ctypes.CDLL(None).personality(0x0040000)  # ADDR_NO_RANDOMIZE, inherited across exec and fork
+        except Exception:  # pragma: no cover - best effort
+            pass
         os.execve(sys.executable, [sys.executable] + sys.argv, env)
 
 
@@ -131,6 +140,9 @@ def run_in_child(fn, arg, timeout=60):
     if not data:
         if os.WIFSIGNALED(status) and os.WTERMSIG(status) in (signal.SIGSEGV, signal.SIGABRT, signal.SIGBUS):
             return {"status": "crashed", "signal": os.WTERMSIG(status), "error": f"child killed by signal {os.WTERMSIG(status)} (engine crash)"}
+        if os.WIFEXITED(status) and 101 <= os.WEXITSTATUS(status) <= 114:
+            # libz3 called exit() with one of its own error codes (e.g. 114 "unexpected code was reached")
+            return {"status": "crashed", "signal": -os.WEXITSTATUS(status), "error": f"libz3 exited the process with code {os.WEXITSTATUS(status)} (engine crash)"}
         return {"status": "harness_error", "error": f"child died without result (wait status {status})"}
     try:
         return json.loads(data)
